@@ -36,6 +36,11 @@ def one (c : Json) : Json :=
           let kind := if kd == "list" then SeqK.list else SeqK.tuple
           jo [("passes", jb (listByIntCheck cfg q kind n k)), ("size", jn (cfg.seqSize kind (repLen n k))),
               ("left", jn (cfg.seqSize kind n))]
+  | "fdict" =>
+      let cfg := Yaql.Gen.Sizes.cfg
+      jo [("size", jn (cfg.fdictSize (jnat c "ds"))),
+          ("set", jb (dictSetCheck cfg (intOf c "Q") (jnat c "ds") (jnat c "ks") (jnat c "vs"))),
+          ("pass", jb (limitMemory (intOf c "Q") [(1, cfg.fdictSize (jnat c "ds"))]))]
   | "mem" =>
       let args := (jarr c "args").map fun a => match asArr a with
         | [x, y] => ((asStr x).toInt?.getD 0, asNat y)
